@@ -455,7 +455,14 @@ class StateScenario(Scenario):
         rec.log("cmdline", op["argv"], type(err).__name__ if err else "ok")
         rec.kind("ok" if err is None else "rej")
         rec.probe("cmdline-override:" + ("applied" if err is None else "rejected"))
-        if err is None and self.prop == "C01" and "paths" in op:
+        def dashed(path_):
+            return path_.replace(".", "-").replace("_", "-").lower()
+        tg_all, _, _ = ops.targets(st.sd, cfg)
+        names = [dashed(t.path) for t in tg_all if "[" not in t.path]
+        ambiguous = any(names.count(dashed(p_)) > 1 for p_ in op.get("paths", ()))      # e.f and e_f share the option --e-f
+        if ambiguous:
+            rec.probe("cmdline-option-names-collide")
+        if err is None and self.prop == "C01" and "paths" in op and not ambiguous:
             # an override is an assignment of the supplied options: it changes no other field
             rec.check()
             a, b = s0, snapshot.snap(cfg, st.serials)
